@@ -20,6 +20,7 @@ def run(model, rep, tier):
     r7_discovery_contains_user_code(ctx, rep)
     c07.r10_report_only_after_completed_run(ctx, rep, R='C02.R8')
     accumulators_never_discarded(ctx, rep, 'C02.R9')
+    accumulator_roles_through_calls(ctx, rep, 'C02.R3')
     rep.units['cfg'] = ctx.cfg_stats
 
 
@@ -514,3 +515,84 @@ def accumulators_never_discarded(ctx, rep, R):
                               key='acc-remove:%s:%s' % (fi.qualname, acc), func=fi.qualname,
                               where=ctx.where(fi, x))
     rep.floor(R, n, 5, 'binding sites of the Runner accumulators')
+
+
+# ---------------------------------------------------------------------------------------------
+# the accumulators keep their roles on the way down to the subprocess reader
+
+ROLE_PARAMS = ('failures', 'errors', 'skipped', 'import_errors')
+
+
+def _bind_positional(callee, args, keywords=()):
+    """parameter name -> argument expression for a plain positional / keyword call"""
+    a = callee.node.args
+    names = [x.arg for x in a.posonlyargs + a.args]
+    if names and names[0] in ('self', 'cls') and callee.cls is not None:
+        names = names[1:]
+    out = {}
+    for nm, v in zip(names, args):
+        out[nm] = v
+    for k in keywords:
+        if k.arg:
+            out[k.arg] = k.value
+    required = len(names) - len(a.defaults)
+    arity_ok = not any(isinstance(x, ast.Starred) for x in args) and \
+        len(args) <= len(names) and all(nm in out for nm in names[:required])
+    return out, arity_ok
+
+
+def accumulator_roles_through_calls(ctx, rep, R):
+    """failures stay failures, errors stay errors: at every hand-over of the Runner's accumulators
+    (Runner.run_tests -> run_layer / resume_tests -> Thread(target=spawn_layer_in_subprocess,
+    args=...) -> run_tests) the argument bound to a parameter named failures / errors / skipped is
+    the caller's value of the same role, and a Thread's args tuple fits the target's signature"""
+    m = ctx.model
+    n = 0
+    for fi in m.all_functions():
+        if fi.module.name != 'runner':
+            continue
+        owner = fi
+        while owner is not None and owner.cls is None:
+            owner = owner.parent
+        in_runner = owner is not None and owner.cls.qualname == 'runner.Runner'
+        cps = [x.arg for x in fi.node.args.posonlyargs + fi.node.args.args]
+        for c in own_calls(fi.node):
+            sites = []
+            r = ctx.cg.resolve_call(c, fi)
+            if isinstance(r, list) and len(r) == 1 and r[0].module.name == 'runner' and \
+                    r[0].name != '__init__':
+                sites.append((r[0], list(c.args), list(c.keywords), c))
+            if (m.resolve_dotted(fi.module, dotted(c.func)) or '') == 'threading.Thread':
+                tgt, targs = kw(c, 'target'), kw(c, 'args')
+                if tgt is not None and isinstance(targs, ast.Tuple) and dotted(tgt):
+                    t = m.lookup(m.resolve_dotted(fi.module, dotted(tgt)))
+                    if t is not None and hasattr(t, 'node') and isinstance(t.node, ast.FunctionDef):
+                        sites.append((t, list(targs.elts), [], c))
+            for callee, args, kws, node in sites:
+                bound, arity_ok = _bind_positional(callee, args, kws)
+                roles = [p_ for p_ in ROLE_PARAMS if p_ in bound]
+                if not roles:
+                    continue
+                n += 1
+                wrong = []
+                for p_ in roles:
+                    d = dotted(bound[p_])
+                    ok = (d == p_ and p_ in cps) or (d == 'self.' + p_ and in_runner)
+                    if not ok:
+                        # a fresh list of the caller's own (e.g. the unused import_errors of a
+                        # subprocess run) is not one of the Runner's accumulators in a wrong role
+                        if d is not None and (d.split('.')[-1] in ROLE_PARAMS):
+                            wrong.append('%s=%s' % (p_, d))
+                is_thread = node is not None and (m.resolve_dotted(fi.module, dotted(node.func)) or '') == 'threading.Thread'
+                rep.check(not wrong and (arity_ok or not is_thread), R,
+                          '%s -> %s: accumulators keep their roles (%s)' % (fi.qualname, callee.name, ', '.join(roles)),
+                          '%s hands %s to %s%s: what the callee records as one kind of outcome lands in '
+                          'the accumulator of another kind (an error of a layer subprocess counted as '
+                          'skipped leaves the verdict "passed")' % (
+                              fi.qualname, ', '.join(wrong) or 'its accumulators', callee.qualname,
+                              '' if arity_ok or not is_thread else ' with an args tuple that does not fit '
+                              'the target\'s signature (the thread dies with a TypeError, the layer never '
+                              'reports)'),
+                          key='acc-roles:%s->%s' % (fi.qualname, callee.name), func=fi.qualname,
+                          where=ctx.where(fi, node))
+    rep.floor(R, n, 4, 'hand-overs of the accumulators')
